@@ -331,7 +331,11 @@ class Prog:
             self.blocks(self.rng.randint(1, 2), budget)
             early = self.rng.random() < 0.25
             if early:
-                self.emit(["IF %s=%s THEN %s" % (v, self.pick(["2", "3"]), lexit)])
+                if self.in_sub and self.rng.random() < 0.6:
+                    # leave the loop and the subroutine at once: RETURN drops the abandoned FOR frame with everything above the return address
+                    self.emit(["IF %s=%s THEN RETURN" % (v, self.pick(["1", "2", "3"]))])
+                else:
+                    self.emit(["IF %s=%s THEN %s" % (v, self.pick(["2", "3"]), lexit)])
             self.emit(self.small_stmts(self.rng.randint(0, 1)) + [nxt])
             self.emit(["REM after " + v], label=lexit)
         self.active_loop_vars.pop()
